@@ -339,6 +339,7 @@ def _freeze_opt(z3):
       ('frozen-set-is-not-empty', H, F2(s)),
       ('with-witness-in-bounds-the-optimum-is-over-all-feasible-valuations', H + [fresh, wib],
        z3.ForAll([v], z3.Implies(F2(v), z3.And(F(v), z3.ForAll([w], z3.Implies(F(w), m(w) <= m(v))))))),
+      ('with-witness-in-bounds-linking-excludes-no-feasible-valuation', [link, fresh, wib], z3.ForAll([v], z3.Implies(F(v), F1(ext(v))))),
       ('with-witness-in-bounds-every-optimal-feasible-valuation-survives', H + [fresh, wib],
        z3.ForAll([v], z3.Implies(z3.And(F(v), z3.ForAll([w], z3.Implies(F(w), m(w) <= m(v)))), F2(ext(v))))),
     ]
@@ -362,8 +363,8 @@ LEMMAS['C04/lex-chain'] = dict(raw=_lex_chain)
 LEMMAS['C02/rank-sums-compose'] = dict(
     vars={'S': ('obj', 'Solver')},
     hyps=['sizes_ok(S.model)', 'pairs_ok(S.model)',
-          ('ensures', 'model:Model.set_rank_lists', {'self': 'S.model'}, None, ['sum-over-each-list-is-the-sum-over-the-pairs-with-that-rank-for-every-weight'])],
-    goals=[('requires', 'solver:Solver.solve', {'self': 'S'}, None, ['rank-list-sums-for-every-weight'])])
+          ('ensures', 'model:Model.set_rank_lists', {'self': 'S.model'}, None, ['one-list-per-rank', 'sum-over-each-list-is-the-sum-over-the-pairs-with-that-rank-for-every-weight'])],
+    goals=[('requires', 'solver:Solver.solve', {'self': 'S'}, None, ['one-rank-list-per-rank', 'rank-list-sums-for-every-weight'])])
 
 
 # ---- C05 bridge: for one acceptable pair p = m.pairs[i][c] of a valid 0/1 valuation, the alpha/beta/gamma system of p is solvable
@@ -461,3 +462,88 @@ LEMMAS['C05/stable-iff-constraints'] = dict(
            # iff (s_i holds a pair at rank <= rank(p), or Lk >= d_k, or Pj >= c_j)  [goal above]  iff p does not block  [this goal]
            ('one-of-three-iff-p-does-not-block', 'forall(kk, 0, m.num_lecturers, forall(jj, 0, m.num_projects, implies(at_p(kk, jj), (A() >= 1 or lksum() >= d() or pjsum() >= cq()) == (not blocks_nu(kk, jj)))))', '',
             ['list-space-blocking-is-pair-space-blocking', 'not-blocking-in-list-space-iff-one-of-three', 'system-solvable-iff-one-of-three', 'internal-sums-are-the-builders-sums'])])
+
+
+# ---- C02 witness-in-bounds for mincost: for every valid 0/1 valuation the weighted cost lies within the bounds of obj_mincost.
+#      cost-term: one pair's cost is at most  nu * K  with  K = nP*sm + nS*lm  (quantifier-free nonlinear arithmetic);
+#      SUM/scale: a constant factor moves out of a sum;  then per row  <= K * (row sum) <= K,  and over the rows  <= nS * K = UB.
+LEMMAS['C02/cost-term'] = dict(
+    vars={'v': 'int', 'rs': 'int', 'rl': 'int', 'sm': 'int', 'lm': 'int', 'nP': 'int', 'nS': 'int', 'h': 'bool'},
+    hyps=['0 <= v and v <= 1', '1 <= rs and rs <= nP', 'implies(h, 1 <= rl and rl <= nS)', 'sm >= 0 and lm >= 0', 'nS >= 0'],
+    goals=[('term-between-0-and-nu-times-K', '0 <= v * rs * sm + ite(h, v * rl * lm, 0) and v * rs * sm + ite(h, v * rl * lm, 0) <= v * (nP * sm + nS * lm)')])
+LEMMAS['SUM/scale'] = dict(
+    vars={'f': ('list', 'int'), 'n': 'int', 'k': 'int'}, hyps=['n >= 0'],
+    induct=('m', '0', 'n', 'Sum(j, m, f[j] * k) == Sum(j, m, f[j]) * k'))
+
+# ---- the same argument for the two other weighted cost criteria
+LEMMAS['C02/studentcost-term'] = dict(
+    vars={'v': 'int', 'rs': 'int', 'sm': 'int', 'nP': 'int'},
+    hyps=['0 <= v and v <= 1', '1 <= rs and rs <= nP', 'sm >= 0'],
+    goals=[('term-between-0-and-nu-times-K', '0 <= v * rs * sm and v * rs * sm <= v * (nP * sm)')])
+LEMMAS['C02/sqcost-term'] = dict(
+    vars={'v': 'int', 'rs': 'int', 'rl': 'int', 'sm': 'int', 'lm': 'int', 'R': 'int', 'nS': 'int', 'h': 'bool'},
+    hyps=['0 <= v and v <= 1', '1 <= rs and rs <= R', 'implies(h, 1 <= rl and rl <= nS)', 'sm >= 0 and lm >= 0', 'nS >= 0'],
+    goals=[('term-between-0-and-nu-times-K', '0 <= v * (rs * rs) * sm + ite(h, v * (rl * rl) * lm, 0) and v * (rs * rs) * sm + ite(h, v * (rl * rl) * lm, 0) <= v * (R * R * sm + nS * nS * lm)')])
+# the code's bound for minsqcost is (nS*R)^2*sm + (nS*nS)^2*lm, which dominates nS*(R^2*sm + nS^2*lm)
+LEMMAS['C02/sq-bound-dominates'] = dict(
+    vars={'n': 'int', 'r': 'int', 'sm': 'int', 'lm': 'int'},
+    hyps=['n >= 0', 'r >= 0', 'sm >= 0', 'lm >= 0'],
+    goals=[('n-times-K-at-most-the-declared-bound', 'n * (r * r * sm + n * n * lm) <= (n * r) * (n * r) * sm + (n * n) * (n * n) * lm')])
+
+
+def _cost_bound(cost, K, term_lemma, term_binding, bound, extra_hyps=(), extra_uses=(), extra_vars=None):
+    D = {'K': ([], 'KK'), 'cost': (['p'], cost),
+         'rowcost': (['i'], 'Sum(c, len(m.pairs[i]), cost(m.pairs[i][c]))'), 'VT': (['i'], 'var_terms(m.pairs[i], len(m.pairs[i]))'),
+         'rowscaled': (['i'], 'Sum(c, len(m.pairs[i]), VT(i)[c] * K())'),
+         'total': ([], 'Sum(i, len(m.pairs), Sum(c, len(m.pairs[i]), cost(m.pairs[i][c])))')}
+    V = {'m': ('obj', 'Model'), 'sm': 'int', 'lm': 'int', 'KK': 'int'}; V.update(extra_vars or {})          # KK: the per-pair bound, an atom in every product
+    return dict(
+        vars=V, defs=D,
+        hyps=['sizes_ok(m)', 'pairs_ok(m)', 'has_vars(m.pairs)', ('valuation-is-binary', 'pairs_binary(m)'), ('rows-are-partial-assignments', 'rows_partial(m)'),
+              ('multipliers-non-negative', 'sm >= 0 and lm >= 0'), ('KK-is-the-per-pair-bound', 'KK == ' + K)] + list(extra_hyps),
+        uses=[(term_lemma, term_binding, 'forall:i,c'),
+              ('SUM/le', {'f': 'lam(c, len(m.pairs[i]), cost(m.pairs[i][c]))', 'g': 'lam(c, len(m.pairs[i]), VT(i)[c] * K())', 'n': 'len(m.pairs[i])'}, 'forall:i'),
+              ('SUM/nonneg', {'f': 'lam(c, len(m.pairs[i]), cost(m.pairs[i][c]))', 'n': 'len(m.pairs[i])'}, 'forall:i'),
+              ('SUM/scale', {'f': 'var_terms(m.pairs[i], len(m.pairs[i]))', 'n': 'len(m.pairs[i])', 'k': 'K()'}, 'forall:i'),
+              ('SUM/le', {'f': 'lam(i, len(m.pairs), rowcost(i))', 'g': 'lam(i, len(m.pairs), K())', 'n': 'len(m.pairs)'}, 'if-applicable'),
+              ('SUM/nonneg', {'f': 'lam(i, len(m.pairs), rowcost(i))', 'n': 'len(m.pairs)'}, 'if-applicable'),
+              ('SUM/const', {'n': 'len(m.pairs)', 'cst': 'K()'})] + list(extra_uses),
+        goals=[('K-non-negative', 'K() >= 0', 'then-assume'),
+               ('h-binary', 'pairs_binary(m)', 'then-assume'), ('h-sizes', 'm.num_students >= 0 and sm >= 0 and lm >= 0 and KK == ' + K, 'then-assume'),
+               ('h-ranks', ' and '.join('(%s)' % (h[1] if isinstance(h, tuple) else h) for h in extra_hyps) + ' and forall(i, 0, len(m.pairs), forall(c, 0, len(m.pairs[i]), 1 <= m.pairs[i][c].rank_student))', 'then-assume'),
+               ('h-terms', 'forall(i, 0, len(m.pairs), forall(c, 0, len(m.pairs[i]), VT(i)[c] == nu(m.pairs[i][c].lp_var)))', 'then-assume'),
+               ('each-term-at-most-nu-times-K', 'forall(i, 0, len(m.pairs), forall(c, 0, len(m.pairs[i]), 0 <= cost(m.pairs[i][c]) and cost(m.pairs[i][c]) <= VT(i)[c] * K()))', 'then-assume',
+                ['h-binary', 'h-sizes', 'h-ranks', 'h-terms', term_lemma + '/term-between-0-and-nu-times-K']),
+               ('row-cost-at-most-the-scaled-row', 'forall(i, 0, len(m.pairs), 0 <= rowcost(i) and rowcost(i) <= rowscaled(i))', 'then-assume',
+                ['each-term-at-most-nu-times-K', 'SUM/le/induct', 'SUM/nonneg/induct']),
+               ('scaled-row-is-K-times-the-row-sum', 'forall(i, 0, len(m.pairs), rowscaled(i) == varsum(m.pairs[i]) * K())', 'then-assume', ['SUM/scale/induct']),
+               ('row-sum-is-0-or-1', 'forall(i, 0, len(m.pairs), varsum(m.pairs[i]) == 0 or varsum(m.pairs[i]) == 1)', 'then-assume'),
+               ('row-cost-at-most-K', 'forall(i, 0, len(m.pairs), 0 <= rowcost(i) and rowcost(i) <= K())', 'then-assume',
+                ['row-cost-at-most-the-scaled-row', 'scaled-row-is-K-times-the-row-sum', 'K-non-negative', 'row-sum-is-0-or-1']),
+               ('total-at-most-students-times-K', '0 <= total() and total() <= m.num_students * K()', 'then-assume'),
+               ('total-cost-within-the-bounds-of-the-objective-variable', '0 <= total() and total() <= ' + bound, '',
+                ['total-at-most-students-times-K', 'h-sizes', 'h-ranks'] + [u[0] + '/' + LEMMAS[u[0]]['goals'][0][0] for u in extra_uses])])
+
+
+_RB_S = ('student-ranks-bounded', 'forall(i, 0, len(m.pairs), forall(c, 0, len(m.pairs[i]), m.pairs[i][c].rank_student <= m.num_projects))')
+LEMMAS['C02/studentcost-bound'] = _cost_bound(
+    'nu(p.lp_var) * p.rank_student * sm', 'm.num_projects * sm', 'C02/studentcost-term',
+    {'v': 'nu(m.pairs[i][c].lp_var)', 'rs': 'm.pairs[i][c].rank_student', 'sm': 'sm', 'nP': 'm.num_projects'},
+    'm.num_students * m.num_projects * sm', extra_hyps=[_RB_S])
+_RB_Q = ('ranks-bounded-by-the-maximum-rank-and-the-number-of-students', "R >= 0 and forall(i, 0, len(m.pairs), forall(c, 0, len(m.pairs[i]), m.pairs[i][c].rank_student <= R"
+         " and implies(has(m.pairs[i][c], 'rank_lecturer'), 1 <= m.pairs[i][c].rank_lecturer and m.pairs[i][c].rank_lecturer <= m.num_students)))")
+LEMMAS['C02/sqcost-bound'] = _cost_bound(
+    "nu(p.lp_var) * (p.rank_student * p.rank_student) * sm + ite(has(p, 'rank_lecturer'), nu(p.lp_var) * (p.rank_lecturer * p.rank_lecturer) * lm, 0)",
+    'R * R * sm + m.num_students * m.num_students * lm', 'C02/sqcost-term',
+    {'v': 'nu(m.pairs[i][c].lp_var)', 'rs': 'm.pairs[i][c].rank_student', 'rl': 'm.pairs[i][c].rank_lecturer', 'sm': 'sm', 'lm': 'lm', 'R': 'R', 'nS': 'm.num_students',
+     'h': "has(m.pairs[i][c], 'rank_lecturer')"},
+    '(m.num_students * R) * (m.num_students * R) * sm + (m.num_students * m.num_students) * (m.num_students * m.num_students) * lm',
+    extra_hyps=[_RB_Q], extra_uses=[('C02/sq-bound-dominates', {'n': 'm.num_students', 'r': 'R', 'sm': 'sm', 'lm': 'lm'}, 'if-applicable')], extra_vars={'R': 'int'})
+_RB_M = ('ranks-bounded', "forall(i, 0, len(m.pairs), forall(c, 0, len(m.pairs[i]), m.pairs[i][c].rank_student <= m.num_projects"
+         " and implies(has(m.pairs[i][c], 'rank_lecturer'), 1 <= m.pairs[i][c].rank_lecturer and m.pairs[i][c].rank_lecturer <= m.num_students)))")
+LEMMAS['C02/mincost-bound'] = _cost_bound(
+    "nu(p.lp_var) * p.rank_student * sm + ite(has(p, 'rank_lecturer'), nu(p.lp_var) * p.rank_lecturer * lm, 0)",
+    'm.num_projects * sm + m.num_students * lm', 'C02/cost-term',
+    {'v': 'nu(m.pairs[i][c].lp_var)', 'rs': 'm.pairs[i][c].rank_student', 'rl': 'm.pairs[i][c].rank_lecturer', 'sm': 'sm', 'lm': 'lm', 'nP': 'm.num_projects', 'nS': 'm.num_students',
+     'h': "has(m.pairs[i][c], 'rank_lecturer')"},
+    'm.num_students * m.num_projects * sm + m.num_students * m.num_students * lm', extra_hyps=[_RB_M])
